@@ -612,7 +612,7 @@ def run_cases(chk, cases):
 def main():
     chk = Check("C15", groups=["runningmoments"])
     chk.build_props()
-    n_cases = int(os.environ.get("VERIF_NCASES", 0)) or (400 if chk.tier == "quick" else 5000)
+    n_cases = int(os.environ.get("VERIF_NCASES", 0)) or (300 if chk.tier == "quick" else 5000)
     cases = []
     corpus = os.path.join(common.VERIF, "corpus", "C15.jsonl")
     if os.path.exists(corpus):
